@@ -1007,3 +1007,7 @@ V("c19-to-bytes-shares-bytearray", "C19", "break", "R19.13", "to_bytes hands a b
 V("c19-to-bytes-result-variable", "C19", "benign", "", "to_bytes written with one result variable and an elif chain",
   "util.py", "    if isinstance(x, bytes):\n        return x\n    if isinstance(x, str):\n        return x.encode(charset, errors)\n    if isinstance(x, (int, float)):\n        return str(x).encode(charset, errors)\n    return bytes(x)\n",
   "    if isinstance(x, bytes):\n        result = x\n    elif isinstance(x, str):\n        result = x.encode(charset, errors)\n    elif isinstance(x, (int, float)):\n        result = str(x).encode(charset, errors)\n    else:\n        result = bytes(x)\n    return result\n")
+V("c01-flattened-protected-kept-when-truthy", "C01", "break", "R01.18", "the flattened reader keeps the received protected member only when it is truthy",
+  "rfc7515/json.py", "    if \"protected\" in value:\n        _sig[\"protected\"] = value[\"protected\"]\n    if \"header\" in value:", "    if value.get(\"protected\"):\n        _sig[\"protected\"] = value[\"protected\"]\n    if \"header\" in value:")
+V("c07-verify-side-random-key", "C07", "break", "R07.19", "deserialize_json resolves its key with use_random=True",
+  "jws.py", "    def find_key(obj: Any) -> Key:\n        return guess_key(public_key, obj)\n", "    def find_key(obj: Any) -> Key:\n        return guess_key(public_key, obj, True)\n")
